@@ -328,18 +328,30 @@ func findAnon(fn *ssa.Function, name string) *ssa.Function {
 	return nil
 }
 
-func (w *World) findPackage(from *types.Package, name string) *types.Package {
+// findPackage resolves a package name as seen from `from`; when several imported
+// packages share the name (imports are per file) the one declaring `member` wins.
+func (w *World) findPackage(from *types.Package, name, member string) *types.Package {
 	if from != nil && from.Name() == name {
 		return from
 	}
+	has := func(p *types.Package) bool { return member == "" || p.Scope().Lookup(member) != nil }
+	var first *types.Package
 	if from != nil {
 		for _, p := range from.Imports() {
 			if p.Name() == name {
-				return p
+				if has(p) {
+					return p
+				}
+				if first == nil {
+					first = p
+				}
 			}
 		}
 	}
-	ps := w.byName[name]
+	if first != nil {
+		return first
+	}
+	ps := append([]*types.Package{}, w.byName[name]...)
 	if len(ps) == 0 {
 		return nil
 	}
@@ -349,8 +361,16 @@ func (w *World) findPackage(from *types.Package, name string) *types.Package {
 		if mi != mj {
 			return mi
 		}
-		return len(ps[i].Path()) < len(ps[j].Path())
+		if len(ps[i].Path()) != len(ps[j].Path()) {
+			return len(ps[i].Path()) < len(ps[j].Path())
+		}
+		return ps[i].Path() < ps[j].Path()
 	})
+	for _, p := range ps {
+		if has(p) {
+			return p
+		}
+	}
 	return ps[0]
 }
 
@@ -425,7 +445,7 @@ func (w *World) tryResolveType(pkg *types.Package, x ast.Expr) types.Type {
 		}
 	case *ast.SelectorExpr:
 		if id, ok := n.X.(*ast.Ident); ok {
-			if p := w.findPackage(pkg, id.Name); p != nil {
+			if p := w.findPackage(pkg, id.Name, n.Sel.Name); p != nil {
 				if tn, ok := p.Scope().Lookup(n.Sel.Name).(*types.TypeName); ok {
 					return tn.Type()
 				}
